@@ -410,6 +410,8 @@ def sym_sqrt(s):
     a = R(s)
     if z3.is_rational_value(a):
         fr = Fraction(a.numerator_as_long(), a.denominator_as_long())
+        if fr < 0:
+            raise NonFinite(f"sqrt of the negative constant {float(fr)}")
         if fr == 2:
             return Sym(SQRT2)
         rt = Fraction(math.isqrt(fr.numerator), math.isqrt(fr.denominator))
@@ -822,6 +824,9 @@ class SymArray(_np.ndarray):
 
     # element-function methods whose object-dtype behaviour is not the float behaviour
     def astype(self, t, *a, **k):
+        if t in (float, int, _np.float64, _np.int64) and self.size and any(isinstance(v, SymBool) for v in self.flat):
+            # booleans to numbers: True -> 1, False -> 0
+            return ew(lambda v: s_where(v, 1, 0) if isinstance(v, (SymBool, bool, _np.bool_)) else v, self)
         return self.copy()
 
     def clip(self, min=None, max=None, out=None, **k):
@@ -893,10 +898,64 @@ class SymArray(_np.ndarray):
 
 
 class Masked:
-    """Result of a[mask] with a symbolic boolean mask; only usable as an assignment source."""
+    """Result of a[mask] with a symbolic boolean mask: the selection {a_i : mask_i}, whose length is not known.  Usable as an
+    assignment source, under element-wise +, -, * and integer powers with scalars (applied to every candidate element; these
+    operations have no domain conditions), and under sum(), which adds the selected elements: sum_i (mask_i ? a_i : 0)."""
 
     def __init__(self, arr, mask):
         self.arr, self.mask = arr, mask
+
+    def _map(self, f):
+        src = _np.asarray(self.arr, dtype=object).view(_np.ndarray)
+        out = _np.empty(src.shape, dtype=object)
+        for ix in _np.ndindex(*src.shape):
+            out[ix] = f(src[ix])
+        return Masked(out.view(SymArray), self.mask)
+
+    @staticmethod
+    def _scalar(o):
+        if isinstance(o, (Sym, int, float, Fraction, _np.floating, _np.integer)) and not isinstance(o, bool):
+            return o
+        if isinstance(o, _np.ndarray) and o.ndim == 0:
+            return o.item()
+        raise Unsupported("arithmetic between a boolean-mask selection and a non-scalar")
+
+    def __add__(self, o):
+        o = Masked._scalar(o)
+        return self._map(lambda v: v + o)
+
+    __radd__ = __add__
+
+    def __sub__(self, o):
+        o = Masked._scalar(o)
+        return self._map(lambda v: v - o)
+
+    def __rsub__(self, o):
+        o = Masked._scalar(o)
+        return self._map(lambda v: o - v)
+
+    def __mul__(self, o):
+        o = Masked._scalar(o)
+        return self._map(lambda v: v * o)
+
+    __rmul__ = __mul__
+    __imul__ = __mul__
+
+    def __pow__(self, k):
+        if not (isinstance(k, int) and 0 <= k <= 4):
+            raise Unsupported("power of a boolean-mask selection")
+        return self._map(lambda v: v ** k)
+
+    def sum(self, *a, **k):
+        if a or k:
+            raise Unsupported("sum variant on a boolean-mask selection")
+        if self.mask.shape != _np.shape(self.arr):
+            raise Unsupported("row selection")
+        tot = 0
+        src = _np.asarray(self.arr, dtype=object).view(_np.ndarray)
+        for ix in _np.ndindex(*src.shape):
+            tot = tot + s_where(self.mask[ix], src[ix], 0)
+        return tot
 
 
 def _mask_of(key):
